@@ -1071,7 +1071,7 @@ class BooleanExpression(Expression):
             elif isinstance(expression, LogicalNotExpression):
                 operand_str = _str(expression.expression, PRECEDENCE_PREFIX)
                 expr = f"not {operand_str}"
-                if parent_precedence > PRECEDENCE_PREFIX:
+                if parent_precedence > 0:
                     return f"({expr})"
                 return expr
             else:
